@@ -564,6 +564,7 @@ func runC04(c *Ctx) {
 		c.R.Count("cross_process_comparisons", int64(len(sel)))
 	}
 	c04cliRepeat(c, tmp)
+	c.Require("pipelines:corpus", "pipelines:generated", "pipelines:source", "pipelines:regime-tag", "cross_process_comparisons", "readonly_ops_checked", "cli_repeated_builds")
 }
 
 // c04cliRepeat: the same `gobl build` command line, with values merged from
